@@ -2683,8 +2683,10 @@ def py_history(L, repo, mod, ci, fd, param, kept, rule, hopping_only):
     try:
         for what, seq in list(call_sequences()) + list(PY_WALKS):
             state, prev = {}, None
+            session = {}            # class-level / module-level state of the sequence (stores through the class name)
             for fn in seq:
                 ev = Ev(repo, mod, env=dict(state, **{param: fn}), self_cls=ci)
+                ev.gstate = session
                 try:
                     r = ev.run_block(fd.body)
                 except Raised as e:
